@@ -260,10 +260,22 @@ pub fn alt_iter<I: Iterator>(mk: impl Fn() -> I, cap: usize, f: impl Fn(I::Item)
             json!([k, cnt, first.into_iter().collect::<Vec<_>>(), last.into_iter().collect::<Vec<_>>(), 0, -1])
         }).collect()
     } else { vec![] };
+    // last() and count() called on the iterator ITSELF (adaptors such as take() do not forward to an override),
+    // fresh and after k calls of next(): bounded lists only
+    let lastd: Vec<Value> = if n <= cap {
+        splits.iter().map(|&k| {
+            let mut it = mk();
+            for _ in 0..k { let _ = it.next(); }
+            let l: Vec<Value> = it.last().map(&f).into_iter().collect();
+            let mut it2 = mk();
+            for _ in 0..k { let _ = it2.next(); }
+            json!([k, l, it2.count()])
+        }).collect()
+    } else { vec![] };
     let tryf = part(true);
     let foreach = part(false);
     let hint_end = { let mut it = mk(); let _ = it.nth(n + 1); let (l, h) = it.size_hint(); [l as i64, h.map(|h| h as i64).unwrap_or(-1)] };
     let hint_end2 = { let mut it = mk().skip(n + 2); let _ = it.next(); let (l, h) = it.size_hint(); [l as i64, h.map(|h| h as i64).unwrap_or(-1)] };
-    json!({"fold": fold, "tryf": tryf, "foreach": foreach, "hint_end": hint_end, "hint_end2": hint_end2, "n": n, "nth": nth, "nth_end": nth_end, "nth_seq": nth_seq, "skip": skip, "step": step, "last": last,
+    json!({"lastd": lastd, "fold": fold, "tryf": tryf, "foreach": foreach, "hint_end": hint_end, "hint_end2": hint_end2, "n": n, "nth": nth, "nth_end": nth_end, "nth_seq": nth_seq, "skip": skip, "step": step, "last": last,
            "a": a, "b": b, "hint": [lo, hi.map(|h| h as i64).unwrap_or(-1)]})
 }
